@@ -30,9 +30,26 @@ type FenceTx struct {
 	Ctx           context.Context
 	TargetTx      driver.Tx
 	TargetFenceTx *sql.Tx
+	// SkipBusiness is set when the fence found that the business effect of this
+	// phase must not be applied (repeated commit / rollback, rollback without
+	// try): Commit then keeps the fence record and discards the business
+	// transaction instead of committing it.
+	SkipBusiness bool
 }
 
 func (tx *FenceTx) Commit() error {
+	if tx.SkipBusiness {
+		if err := tx.TargetTx.Rollback(); err != nil {
+			tx.clearFenceTx()
+			if rerr := tx.TargetFenceTx.Rollback(); rerr != nil {
+				log.Error(rerr)
+			}
+			return err
+		}
+		tx.clearFenceTx()
+		return tx.TargetFenceTx.Commit()
+	}
+
 	if err := tx.TargetTx.Commit(); err != nil {
 		// the business did not commit: the fence record must not stay behind,
 		// neither committed nor as an open transaction
